@@ -250,6 +250,11 @@ static void do_set(V *t, const PayT &p) {
                     break;
                 }
                 case 'e': *t = SV{cp, n}; break;
+                case 'g': {
+                    V tmp(SV{cp, n}); // Value(const StringViewT&)
+                    *t = static_cast<V &&>(tmp);
+                    break;
+                }
                 default: {
                     std::string z = cstr_of(p.units);
                     *t            = z.c_str();
@@ -440,6 +445,31 @@ static std::string summary(const V *roots, const V &v) {
         Str y = v.Stringify();
         s += ":y" + units_str(y.First(), y.Length());
     }
+    {
+        StringStream<char> os;
+        os << v;   // operator<<(Stream_T&, const Value&) writes Stringify()
+        Str y2 = v.Stringify();
+        if (os.Length() != y2.Length() || !StringUtils::IsEqual(os.First(), y2.First(), y2.Length())) s += "!shift";
+        StringStream<char> o3;
+        v.Stringify(o3, Config::DoublePrecision);
+        if (o3.Length() != y2.Length() || !StringUtils::IsEqual(o3.First(), y2.First(), y2.Length())) s += "!stringify2";
+    }
+    {
+        // First() / Last() against the container's own storage (raw kinds only).  Value::End(), Value::Storage() and
+        // Value::IsPointerToValue() cannot be instantiated at all (they do not compile: see notes/design-value.md).
+        if (v.Type() == ValueType::Array) {
+            const Arr *a = v.GetArray();
+            if (v.First() != a->First() || v.Last() != a->Last()) s += "!ptrs";
+        } else if (v.Type() == ValueType::Object) {
+            const Obj      *o  = v.GetObject();
+            const V::VItem *st = o->Storage();
+            const bool      ok = (st == nullptr) ? (v.First() == nullptr && v.Last() == nullptr)
+                                                 : (v.First() == &(st->Value) && (sz == 0 ? v.Last() == nullptr : v.Last() == &((st + (sz - 1))->Value)));
+            if (!ok) s += "!ptrs";
+        } else if (v.Type() != ValueType::ValuePtr) {
+            if (v.First() != nullptr || v.Last() != nullptr) s += "!ptrs";
+        }
+    }
     s += ":q";
     for (size_t i = 0; i < PROBE.size(); ++i) {
         vh::ExactBuf<char> kb(PROBE[i]);
@@ -472,6 +502,14 @@ static std::string summary(const V *roots, const V &v) {
         } else {
             if (kc != pk.First() || kl != pk.Length()) s += "!vk";
             s += units_str(pk.First(), pk.Length()) + "=" + num((unsigned)pv->Type());
+        }
+        {
+            StringStream<char> ks;
+            s += '/';
+            if (v.CopyKeyByIndexTo(ks, i))
+                s += units_str(ks.First(), ks.Length());
+            else
+                s += '~';
         }
         {
             const char *c2 = nullptr;
@@ -560,6 +598,14 @@ static StepResult do_op(V *roots, const std::vector<std::string> &t, std::string
             do_set(vivify(roots, l), p);
         } else
             res.ok = false;
+    } else if (op == "tyc" && t.size() == 3 && parse_loc(t[1], l)) {
+        // Value(ValueType) construction followed by move assignment
+        V             *tv = vivify(roots, l);
+        const unsigned k  = (unsigned)strtoul(t[2].c_str(), nullptr, 10);
+        if (k != 1 && k <= 10) {
+            V tmp{ValueType(k)};
+            *tv = static_cast<V &&>(tmp);
+        }
     } else if (op == "typ" && t.size() == 3 && parse_loc(t[1], l)) {
         V             *tv = vivify(roots, l);
         const unsigned k  = (unsigned)strtoul(t[2].c_str(), nullptr, 10);
@@ -713,6 +759,46 @@ static StepResult do_op(V *roots, const std::vector<std::string> &t, std::string
             tv->GetObject()->Clear();
         else if (tv->Type() == ValueType::Array)
             tv->GetArray()->Clear();
+    } else if (op == "cop" && t.size() == 5 && parse_loc(t[3], l) && parse_loc(t[4], s)) {
+        // container-typed overloads with the container taken from ANY location of the forest (also inside the
+        // destination, an ancestor of it, a sibling, the destination itself):
+        //   cop <form> <kind> L S     form: ac = (const&)  am = (&&)  pc += (const&)  pm += (&&)  cc Value(const&)  cm Value(&&)
+        //                              kind: o ObjectT, a ArrayT, s StringT
+        // the destination reference is obtained first (vivifying subscripts), then the source through GetValue calls
+        V *tv  = vivify(roots, l);
+        V *src = nav(roots, s);
+        const std::string &form = t[1];
+        const char         kind = t[2].empty() ? '?' : t[2][0];
+        if (src != nullptr) {
+            if (kind == 'o' && src->Type() == ValueType::Object) {
+                Obj *so = src->GetObject();
+                if (form == "ac") *tv = static_cast<const Obj &>(*so);
+                else if (form == "am") *tv = static_cast<Obj &&>(*so);
+                else if (form == "pc") *tv += static_cast<const Obj &>(*so);
+                else if (form == "pm") *tv += static_cast<Obj &&>(*so);
+                else if (form == "cc") { V tmp(static_cast<const Obj &>(*so)); *tv = static_cast<V &&>(tmp); }
+                else if (form == "cm") { V tmp(static_cast<Obj &&>(*so)); *tv = static_cast<V &&>(tmp); }
+                else res.ok = false;
+            } else if (kind == 'a' && src->Type() == ValueType::Array) {
+                Arr *sa = src->GetArray();
+                if (form == "ac") *tv = static_cast<const Arr &>(*sa);
+                else if (form == "am") *tv = static_cast<Arr &&>(*sa);
+                else if (form == "pc") *tv += static_cast<const Arr &>(*sa);
+                else if (form == "pm") *tv += static_cast<Arr &&>(*sa);
+                else if (form == "cc") { V tmp(static_cast<const Arr &>(*sa)); *tv = static_cast<V &&>(tmp); }
+                else if (form == "cm") { V tmp(static_cast<Arr &&>(*sa)); *tv = static_cast<V &&>(tmp); }
+                else res.ok = false;
+            } else if (kind == 's' && src->Type() == ValueType::String) {
+                Str *ss = src->GetString();
+                if (form == "ac") *tv = static_cast<const Str &>(*ss);
+                else if (form == "am") *tv = static_cast<Str &&>(*ss);
+                else if (form == "pc") *tv += static_cast<const Str &>(*ss);
+                else if (form == "pm") *tv += static_cast<Str &&>(*ss);
+                else if (form == "cc") { V tmp(static_cast<const Str &>(*ss)); *tv = static_cast<V &&>(tmp); }
+                else if (form == "cm") { V tmp(static_cast<Str &&>(*ss)); *tv = static_cast<V &&>(tmp); }
+                else res.ok = false;
+            }
+        }
     } else if ((op == "grp") && t.size() == 4 && parse_loc(t[2], s)) {
         const unsigned        d = (unsigned)strtoul(t[1].c_str(), nullptr, 10) & 3;
         std::vector<uint64_t> k;
